@@ -429,7 +429,14 @@ func grpcKind(res *vkit.Result, k Kind) {
 	if !scn {
 		var sb strings.Builder
 		for i := 0; i < 40; i++ {
-			fmt.Fprintf(&sb, `{"tag":"t%d","call":"target.TargetService.Hello","metadata":{"vid":"%d","x-common":"c"},"payload":{"name":"vid=%d"}}`+"\n", i%3, i, i)
+			call := "target.TargetService.Hello"
+			switch i % 10 {
+			case 4:
+				call = "target.TargetService/Hello" // the other common way of writing a method
+			case 9:
+				call = "/target.TargetService/Hello"
+			}
+			fmt.Fprintf(&sb, `{"tag":"t%d","call":"%s","metadata":{"vid":"%d","x-common":"c"},"payload":{"name":"vid=%d"}}`+"\n", i%3, call, i, i)
 		}
 		p := vkit.WriteMem([]byte(sb.String()))
 		cleanup = append(cleanup, p)
